@@ -167,7 +167,7 @@ def build():
             'known_findings.json lists 22 fixed: entries (18 fix: commits in /repo; they suppress nothing) and '
             'no open finding. A quick run takes 25-130 s per property on 16 idle cores (time-budgeted; on a loaded '
             'machine the shards keep going up to 5x until the floors of the deciding counters are reached), a '
-            'thorough run 7-30 min. seeded/ holds 79 independently produced property-breaking changes with the '
+            'thorough run 7-30 min. seeded/ holds 89 independently produced property-breaking changes with the '
             'check results (seeded/RESULTS.md); python -m vf.selftest runs 68 textual mutants.'
         ),
     }
